@@ -37,11 +37,14 @@ open ChemModel
 /-- Python exception classes that the modelled code can raise -/
 inductive Err
   | valueError | typeError | indexError | keyError | lookupError | attributeError
+  /-- not an exception: the token for a float `inf`/`nan` RESULT (division by a target unit of magnitude 0) -/
+  | nonFinite
   deriving DecidableEq, Repr
 
 def Err.name : Err → String
   | .valueError => "ValueError" | .typeError => "TypeError" | .indexError => "IndexError"
   | .keyError => "KeyError" | .lookupError => "LookupError" | .attributeError => "AttributeError"
+  | .nonFinite => "NonFinite"
 
 /-! ## exponent vectors -/
 
@@ -302,9 +305,22 @@ def toUnitlessDict (l : List (String × Val α)) (newUnit : PyVal α) : Except E
       | .ok xs => .ok ((k, x) :: xs)
 end
 
-/-- `to_unitless(value, new_unit=None)`: `None` becomes `pq.dimensionless` (line 366-367) -/
+/-- DOMAIN GUARD.  A target "unit" of magnitude 0 (`0*metre`) is not a unit: NumPy evaluates `unt/new_unit` to `inf` (or `nan`)
+    without raising and `to_unitless` returns that.  The exact model has no `inf`; its field division would give `x/0 = 0`.
+    The Python-facing entry point therefore answers with the explicit token `Err.nonFinite` instead, and every theorem about
+    `toUnitlessScalar`/`toUnitless` carries the hypothesis `u.si ≠ 0`.  (Unit FACTORS are non-zero by well-formedness; the
+    internally built targets — `unit_of(x)`, registry products, `u_y*u_x**k` — have non-zero magnitude whenever the registry
+    entries have.) -/
+def targetNonDegenerate (newUnit : PyVal α) : Bool := newUnit.magnitude ≠ ((0 : Nat) : α)
+
+/-- `to_unitless(value, new_unit=None)` as called from outside: `None` becomes `pq.dimensionless` (line 366-367); a target of
+    magnitude 0 yields the `nonFinite` token wherever Python would return a number (see `targetNonDegenerate`; exceptions —
+    ValueError for another dimension, for a `str` — keep their precedence; an EMPTY container with such a target is outside the model) -/
 def toUnitlessOpt (v : Val α) (newUnit : Option (PyVal α)) : Except Err (Res α) :=
-  toUnitless v (newUnit.getD (.qty Quantity.dimensionless))
+  let u := newUnit.getD (.qty Quantity.dimensionless)
+  match toUnitless v u with
+  | .error e => .error e               -- dimension / type errors are raised before any number is produced
+  | .ok r => if targetNonDegenerate u then .ok r else .error .nonFinite
 
 mutual
 /-- `is_unitless(expr)` (units.py 291-311): dict → all values, list/tuple → all elements, anything else True -/
@@ -654,6 +670,13 @@ def backendCall {β : Type} (f : List α → β) (args : List (PyVal α)) : Exce
   match toUnitlessFlat args (.qty Quantity.dimensionless) with
   | .error e => .error e
   | .ok xs => .ok (f xs)
+
+/-- `_wrap_numpy(k)` (units.py 731-744), the wrapper behind `patched_numpy.log/log10/log2/log1p/exp/expm1/logaddexp/logaddexp2`:
+    `numpy_func(*map(to_unitless, args), **kwargs)` — literally the `Backend` wrapper -/
+def wrapNumpy {β : Type} (numpyFunc : List α → β) (args : List (PyVal α)) : Except Err β :=
+  match toUnitlessFlat args (.qty Quantity.dimensionless) with
+  | .error e => .error e
+  | .ok xs => .ok (numpyFunc xs)
 
 /-! ### generated tables as model values -/
 
